@@ -67,13 +67,10 @@ def CalEnv.time (c : CalEnv) (i : Int) : Int := c.start + i * c.G
 def defaultWorking (c : CalEnv) (t : Int) : Bool :=
   !inAny c.gvac t && decide (weekday t < 5) && decide (9 ≤ hourOf t) && decide (hourOf t < 17)
 
-/-- `Project.isWorkingTime(idx)` = `self.scoreboard[idx] is None` with Python list indexing:
-    in range → that slot, negative → wraps to `size + idx`; beyond the table Python raises IndexError —
-    the model answers False there and `Properties/C11` proves the scheduler never asks. -/
+/-- `Project.isWorkingTime(idx)`: the project scoreboard slot is free; outside the table nothing is
+    working time (after the `fix:`: no wrap-around for negative indices, no IndexError beyond the end) -/
 def projWorkAt (c : CalEnv) (i : Int) : Bool :=
-  if 0 ≤ i ∧ i < c.size then defaultWorking c (c.time i)
-  else if -c.size ≤ i ∧ i < 0 then defaultWorking c (c.time (c.size + i))
-  else false
+  if 0 ≤ i ∧ i < c.size then defaultWorking c (c.time i) else false
 
 /-- `ResourceScenario.onShift(sb_idx)` -/
 def onShiftAt (c : CalEnv) (rc : ResCal) (i : Int) : Bool :=
